@@ -7,6 +7,7 @@ from harness import build as B
 from harness import payload as P
 from harness import refmodel as R
 from harness import spec as S
+from harness import wellcond as W
 from harness.core import is_err
 from harness.treecheck import blame, dt_class, leaf_preds
 
@@ -48,6 +49,9 @@ def gen(tier, rng, shard, nshards):
             if all(p is not None for p in left + right):
                 node = {"k": "Product", "via": S.pick(rng, ["fn", "fn", "ctor"]),
                         "args": [{"k": "Kronecker", "via": "ctor", "args": left}, {"k": "Kronecker", "via": "ctor", "args": right}]}
+        if rng.random() < 0.04:
+            # directed: results of routines on structured arguments (TriangularInv, factor-wise inverses, inverse of an inverse)
+            node = W.gen_routine_directed(rng, S.pick(rng, S.ALL_DT))
         if rng.random() < 0.04:
             # directed: nested scalar multiples whose scalars are each representable while their *product* is not, on an operator
             # whose entries compensate (the represented matrix is finite: (c1 c2) A must not be formed as (c1 c2) first)
